@@ -205,6 +205,8 @@ def check_big(v):
     from bionumpy.io.indexed_fasta import IndexedFasta, create_index
     from bionumpy.datatypes import Interval
     recs = v["recs"]
+    crlf = bool(v.get("crlf"))
+    nl = "\r\n" if crlf else "\n"
     d = os.path.join(v["_dir"], "c17_big_%d" % os.getpid())
     os.makedirs(d, exist_ok=True)
     path = os.path.join(d, "big.fa")
@@ -212,15 +214,18 @@ def check_big(v):
 
     def base(i, p):
         return LETTERS[(3 * i + p) % len(LETTERS)]
-    with open(path, "w") as f:
+    for f_ in (path, path + ".fai"):
+        if os.path.exists(f_):
+            os.remove(f_)
+    with open(path, "w", newline="") as f:
         for i, r in enumerate(recs):
             name = "r%d" % (i + 1)
             header = name if r["hdr"] == 2 else name + " d" + "x" * (r["hdr"] - 4)
             names.append(name)
             unit = "".join(base(i, p) for p in range(len(LETTERS)))
             seq = (unit * (r["L"] // len(LETTERS) + 1))[:r["L"]]
-            body = "\n".join(seq[p:p + r["W"]] for p in range(0, r["L"], r["W"]))
-            f.write(">" + header + "\n" + body + "\n")
+            body = nl.join(seq[p:p + r["W"]] for p in range(0, r["L"], r["W"]))
+            f.write(">" + header + nl + body + nl)
     bad, n = [], 0
     vec = {k: v[k] for k in v if not k.startswith("_")}
     if os.path.getsize(path) != v["flen"]:
@@ -234,13 +239,18 @@ def check_big(v):
     o = outcome(built)
     n += 1
     if o != ("ok", want):
-        bad.append({"what": "created index of a multi-chunk FASTA differs from the file layout", "tags": {"op": "create_index", "big": True, "nrec": len(recs), "finalnl": True},
+        bad.append({"what": "created index of a multi-chunk FASTA differs from the file layout", "tags": {"op": "create_index", "big": True, "nrec": len(recs), "finalnl": True, "crlf": crlf},
                     "vector": vec, "expected": want, "observed": o})
     else:
         def fetches():
             from bionumpy.io.indexed_files import IndexBuffer
             bnp.open(path + ".fai", "w", buffer_type=IndexBuffer).write(create_index(path))
             fa = IndexedFasta(path)
+            if crlf:
+                # CR LF: whole contigs only (interval fetches of such files are refused by the library)
+                last = fa[names[-1]].to_string()
+                lens = {k: int(x) for k, x in fa.get_contig_lengths().items()}
+                return last == "".join(base(len(recs) - 1, p) for p in range(recs[-1]["L"])), lens == {nm: r["L"] for nm, r in zip(names, recs)}, [last[:20]]
             ivs = []
             for i, r in enumerate(recs):
                 L = r["L"]
@@ -253,11 +263,11 @@ def check_big(v):
         o = outcome(fetches)
         n += 1
         if o[0] != "ok" or not (o[1][0] and o[1][1]):
-            bad.append({"what": "fetching from a multi-chunk FASTA differs from the file", "tags": {"op": "fetch-big", "big": True, "nrec": len(recs), "finalnl": True},
+            bad.append({"what": "fetching from a multi-chunk FASTA differs from the file", "tags": {"op": "fetch-big", "big": True, "nrec": len(recs), "finalnl": True, "crlf": crlf},
                         "vector": vec, "expected": "substrings at the record borders and the sequence lengths", "observed": str(o)[:300]})
     import shutil
     shutil.rmtree(d, ignore_errors=True)
-    return {"n": n, "nt": [json.dumps(["big", recs])], "bad": bad}
+    return {"n": n, "nt": [json.dumps(["big", recs, crlf])], "bad": bad}
 
 
 def run(ctx):
@@ -292,9 +302,11 @@ def run(ctx):
     ctx.sample({k: vectors[7][k] for k in ("recs", "finalnl", "index")})
     ctx.absorb(core.pmap(check_vector, vectors, chunk=10))
     # a file of several reader chunks (the index is built chunk by chunk): index by the arithmetic definition, TLC-checked above
-    big = ctx.tlc("MC_C17big", tag="MC_C17big", spec="BigSpec", constants={"MaxRecs": 1, "MaxL": 1, "MaxW": 1, "FinalNL": True, "BlankEnd": False, "MaxFetch": 1, "CRLF": False}, invariants=["EmitBig"])
+    big = ctx.tlc("MC_C17big", tag="MC_C17big", spec="BigSpec", constants={"MaxRecs": 1, "MaxL": 1, "MaxW": 1, "FinalNL": True, "BlankEnd": False, "MaxFetch": 1, "CRLF": False}, invariants=["EmitBig", "ReadBoundaryAtLineEnd"])
     bv = dict(big.vectors[0], _dir=ctx.work)
     ctx.absorb([check_big(bv)])
+    bigc = ctx.tlc("MC_C17big", tag="MC_C17big_crlf", spec="BigSpec", constants={"MaxRecs": 1, "MaxL": 1, "MaxW": 1, "FinalNL": True, "BlankEnd": False, "MaxFetch": 1, "CRLF": True}, invariants=["EmitBig"])
+    ctx.absorb([check_big(dict(bigc.vectors[0], _dir=ctx.work))])
     ctx.exhaustive = True
     return ctx.finish(RULE, assumptions=[
         "bases-per-line of a record that fits on one line is not determined by the file and is not compared",
